@@ -1132,7 +1132,12 @@ impl<'a, 'b> GeneratorState<'a> {
             }
         }
         self.label(&switchend_label)?;
-        self.loops.pop();
+        // A continue inside the switch targets the enclosing loop: tell that loop its continue label is used
+        if let Some((_, _, true)) = self.loops.pop() {
+            if let Some(l) = self.loops.last_mut() {
+                l.2 = true;
+            }
+        }
         Ok(())
     }
 }
